@@ -668,6 +668,7 @@ func (g *gen) release(m int) {
 
 func runCase(e *etcdx.Etcd, admin *clientv3.Client, root string, r *rng.R, fixed []op, maxOps int) (caseRec, bool, string) {
 	w := &world{e: e, admin: admin, root: root}
+	defer e.CloseFrom(e.Mark())
 	for i := 0; i < 2; i++ {
 		w.mems = append(w.mems, w.newMember(i))
 	}
@@ -791,6 +792,7 @@ func scenarios() [][]op {
 // every pair of answers that do not overlap in time must be ordered.
 func raceReset(e *etcdx.Etcd, admin *clientv3.Client, root string, R *res.Result, prop string) {
 	w := &world{e: e, admin: admin, root: root}
+	defer e.CloseFrom(e.Mark())
 	w.mems = append(w.mems, w.newMember(0))
 	x := w.mems[0]
 	if err := x.m.CampaignLeader(60); err != nil {
